@@ -65,8 +65,9 @@ def guarded(fn, *a, limit=4.0):
 
     def prof(frame, event, arg):
         steps[0] += 1
-    signal.signal(signal.SIGALRM, _alarm)
-    signal.setitimer(signal.ITIMER_REAL, limit)
+    # CPU time, not wall-clock time: a loaded machine must not turn a slow call into a "hang"
+    signal.signal(signal.SIGVTALRM, _alarm)
+    signal.setitimer(signal.ITIMER_VIRTUAL, limit)
     sys.setprofile(prof)
     try:
         v = fn(*a)
@@ -80,7 +81,7 @@ def guarded(fn, *a, limit=4.0):
         out = ("raised", type(ex).__name__)
     finally:
         sys.setprofile(None)
-        signal.setitimer(signal.ITIMER_REAL, 0)
+        signal.setitimer(signal.ITIMER_VIRTUAL, 0)
     return out[0], out[1], steps[0]
 
 
@@ -500,8 +501,9 @@ def run_c15(chk: Check) -> int:
     # minimal COSEM lists: every type tag as first / only element value, for every list grammar
     ob = bytes([9, 6, 1, 1, 1, 7, 0, 255])
     dt = bytes([9, 12, 7, 0xE6, 1, 1, 1, 0, 0, 0, 0xFF, 0x80, 0, 0])
-    for tag in (0, 1, 2, 3, 4, 5, 6, 9, 10, 12, 13, 15, 16, 17, 18, 22, 23, 255):
-        for val in (bytes([tag]), bytes([tag, 0]), bytes([tag, 1, 65]), bytes([tag, 0, 0, 0, 1]), bytes([tag, 2, 2, 15, 0, 22, 27])):
+    for tag in ((0, 2, 6, 9, 10, 15, 18, 22, 255) if quick else (0, 1, 2, 3, 4, 5, 6, 9, 10, 12, 13, 15, 16, 17, 18, 22, 23, 255)):
+        for val in ((bytes([tag]), bytes([tag, 1, 65]), bytes([tag, 0, 0, 0, 1])) if quick else
+                    (bytes([tag]), bytes([tag, 0]), bytes([tag, 1, 65]), bytes([tag, 0, 0, 0, 1]), bytes([tag, 2, 2, 15, 0, 22, 27]))):
             for body in (bytes([2, 1]) + val, bytes([2, 1]) + ob + val, bytes([2, 2]) + ob + val, bytes([2, 3, 10, 1, 65]) + ob + val,
                          bytes([1, 1, 2, 2]) + ob + val, bytes([2, 1]) + dt + val, bytes([2, 2]) + ob + dt + val):
                 items.append(("crafted-cosem", body))
